@@ -10,14 +10,38 @@ sys.path.insert(0, os.path.join(VERIF, "progs"))
 TRUST = "std (core/alloc) as the oracle, rustc 1.95 / nightly 1.97 as installed, the harness's own model code; bounds as stated in evidence"
 
 # id -> (technique, text, note, design_ref, engine)
+def C(tech, text, ref, engine):
+    return (tech, text + " Exploration, not proof: nothing is claimed outside the enumerated bounds and the sampled random cases; evidence reports measured counts.", TRUST, ref, engine)
+
+
 CLAIMS = {
-    "C02": (
-        "differential testing vs std slice indexing: exhaustive small-bound enumeration + seeded proptest",
-        "Every (length, index, index) combination over the stated index set (incl. usize::MAX neighbourhood, start>end) and five element types is compared, by address and length, with what std's get/get(range)/split_at/try_from/as_chunks return; _mut variants are additionally written through. Complete up to the bound, random (shrinking) beyond it. Exploration, not proof: nothing is claimed outside the explored index/length set.",
-        TRUST,
-        "DESIGN.md §3 C02",
-        "harness/src/bin/c02.rs",
-    ),
+    "C02": C("differential testing vs std slice indexing: exhaustive small-bound enumeration + seeded proptest",
+             "Every (length, index, index) combination over the stated index set (incl. the usize::MAX / isize::MAX neighbourhoods, start>end) and five element types (u8,u64,(),String,[u8;3]) is compared by address and length with std's get/get(range)/split_at/try_from/as_chunks; _mut variants are written through and the written range checked.",
+             "DESIGN.md §3 C02", "harness/src/bin/c02.rs"),
+    "C03": C("differential testing vs std str indexing with expected-panic predicate: exhaustive enumeration + seeded proptest",
+             "All strings up to 5-6 chars over one char of each UTF-8 length plus boundary scalars, x all byte indices (incl. beyond len, usize::MAX) x all pairs: fallible getters == str::get, boundary predicate == is_char_boundary, clamping variants return std's sub-string (by address) and panic exactly when an in-range index is inside a char.",
+             "DESIGN.md §3 C03", "harness/src/bin/c03.rs"),
+    "C04": C("differential testing vs naive search and str::find/rfind/split_once: exhaustive small-alphabet enumeration + seeded proptest",
+             "All haystacks x needles over 2-3 symbol alphabets up to length 10/4 (every self-overlap structure of short needles), UTF-8 text incl. chars sharing lead bytes, through all four pattern kinds and all 18 search-derived functions; derived results compared by address.",
+             "DESIGN.md §3 C04", "harness/src/bin/c04.rs"),
+    "C05": C("differential testing vs std starts_with/strip_*/trim_ascii*/trim_*_matches: exhaustive enumeration + seeded proptest",
+             "All inputs x patterns over small alphabets (incl. every ASCII whitespace/control byte class and all 256 byte values at the edges), all four pattern kinds; results compared by address with std; two-sided trim_matches with multi-char patterns must equal one of the two compositions of the one-sided std functions.",
+             "DESIGN.md §3 C05", "harness/src/bin/c05.rs"),
+    "C07": C("complete enumeration of char/u32 conversions + model-based history testing of chars/char_indices vs std",
+             "Every char through encode_utf8 and every u32 < 0x120000 through from_u32 (complete); all strings up to 5-6 chars over one char per UTF-8 length x all front/back histories for chars/char_indices/their reversed types, as_str() compared by address after every step.",
+             "DESIGN.md §3 C07", "harness/src/bin/c07.rs"),
+    "C08": C("model-based history testing vs core::slice iterators: exhaustive (length,size,history) enumeration + seeded proptest",
+             "All lengths 0..=11 x sizes 1..=12 x 8 iterator kinds x {fwd,rev,rev.rev} x {u16,()} x every front/back history run past exhaustion; items compared by address with std's iterator, as_slice()/remainder() after every step, copy() independence, size 0 panics.",
+             "DESIGN.md §3 C08", "harness/src/bin/c08.rs"),
+    "C09": C("model-based history testing vs core::ops range iterators: all u8/i8 pairs, boundary neighbourhoods of wider types, all histories of short ranges",
+             "All 65536 (start,end) pairs of u8 and i8, boundary neighbourhoods of the 10 wider integer types and char (incl. the surrogate gap), a..b / a..=b / a.., stepped under fixed and random front/back histories through into_iter! (by value, by reference, rev, rev.rev) and for_each! (with rev()).",
+             "DESIGN.md §3 C09", "harness/src/bin/c09.rs"),
+    "C12": C("differential testing vs str::parse and a reference prefix scanner: exhaustive 8/16-bit values and short strings, boundary neighbourhoods, seeded proptest",
+             "Every value of the 8/16-bit types in several spellings, all strings up to 4-5 symbols over {0,1,9,-,+,a,' ',non-ASCII digit} for all 12 integer types and bool, MIN/MAX +-12 neighbourhoods with extra digits/zeros/suffixes for all types (decimal-string arithmetic for 128-bit); whole-string and Parser prefix parsing incl. offsets and error position.",
+             "DESIGN.md §3 C12", "harness/src/bin/c12.rs"),
+    "C16": C("differential testing vs PartialEq/Ord on boundary-value tables: all pairs, all Option combinations, all triples for the order laws",
+             "Every public eq_*/cmp_* function (14 scalar types, their slices, Option variants, NonZero, ranges, Ordering, str, &[&str], &[&[u8]]) and const_eq!/const_cmp!/const_eq_for!/const_cmp_for!/assertc_* forms over all pairs of boundary values and all pairs of slices of length <= 3, plus antisymmetry/transitivity over all triples.",
+             "DESIGN.md §3 C16", "harness/src/bin/c16.rs"),
 }
 
 PENDING_REASON = "check not built yet in this session (planned in DESIGN.md §3); will be claimed once its engine exists and is silent on the unchanged tree"
